@@ -16,6 +16,7 @@ func init() {
 	vpRegister("c01_tamper", vpH_c01_tamper)
 	vpRegister("c01_fields", vpH_c01_fields)
 	vpRegister("c01_legacy", vpH_c01_legacy)
+	vpRegister("c01_config", vpH_c01_config)
 }
 
 // The mandatory-field rule on its own: whatever the signed-field list looks
@@ -271,5 +272,26 @@ func vpMixedMatrix(os, anon string) *pipeline.Matrix {
 	return &pipeline.Matrix{
 		Setup:       pipeline.MatrixSetup{"": {anon, "i"}, "os": {os}},
 		Adjustments: pipeline.MatrixAdjustments{{With: pipeline.MatrixAdjustmentWith{"": "a", "os": "w"}, Skip: true}},
+	}
+}
+
+// A plugin's config is signed content whatever its type: swapping it for any
+// other value - also between falsy scalars, or between a falsy scalar and
+// nothing - is refused. Only nil and the empty containers are one value.
+func vpH_c01_config() {
+	ctx := context.Background()
+	configs := []any{nil, map[string]any{}, []any{}, false, 0, "", true, "x", 1.5, []any{false}, map[string]any{"k": nil}}
+	i, j := vpInt(0, len(configs)-1), vpInt(0, len(configs)-1)
+	vpAssume(i != j)
+	s := vpSigSigner(1)
+	signed := pipeline.CommandStep{Command: "c", Plugins: pipeline.Plugins{{Source: "p#v1", Config: configs[i]}}}
+	sig, err := Sign(ctx, s, &CommandStepWithInvariants{CommandStep: signed, RepositoryURL: "r"})
+	vpAssume(err == nil && sig != nil)
+	pres := pipeline.CommandStep{Command: "c", Plugins: pipeline.Plugins{{Source: "p#v1", Config: configs[j]}}}
+	verr := Verify(ctx, sig, s, &CommandStepWithInvariants{CommandStep: pres, RepositoryURL: "r"})
+	if i <= 2 && j <= 2 {
+		vpAssert(verr == nil, "nil and the empty containers are the same plugin config")
+	} else {
+		vpAssert(verr != nil, "a plugin config swapped for any other value (also between falsy scalars) is refused")
 	}
 }
